@@ -343,7 +343,7 @@ fn rt_inner<F: Flavour>(sc: &RtSc, stats: &mut Stats) -> Option<Violation> {
     }
     // other payload types: String keys, () node and edge values (parallel edges indistinguishable)
     let pairs: Vec<(usize, usize)> = sc.edges.iter().map(|(u, v, _)| (*u, *v)).collect();
-    match F::alt_round_trip(sc.prios.len(), &pairs, sc.wire) {
+    match F::alt_round_trip(sc.prios.len(), &pairs, sc.wire, (sc.ser_hash % 4) as u8) {
         Ok((before, after)) => {
             stats.inc("alt_type_round_trips");
             if before != after {
@@ -688,9 +688,14 @@ fn encode(v: &Value, wire: Wire) -> Vec<u8> {
 /// Applies a structural mutation to the document tree. Returns None when the
 /// mutation does not apply (index out of range).
 fn mutate_value(v: &Value, m: &Mutation) -> Option<Value> {
+    mutate_value_keyed(v, m, None)
+}
+
+/// `alt`: the document has `String` keys of the given style and `()` values
+fn mutate_value_keyed(v: &Value, m: &Mutation, alt: Option<u8>) -> Option<Value> {
     if let Mutation::Both(a, b) = m {
-        let x = mutate_value(v, a)?;
-        return mutate_value(&x, b);
+        let x = mutate_value_keyed(v, a, alt)?;
+        return mutate_value_keyed(&x, b, alt);
     }
     let mut v = v.clone();
     {
@@ -711,7 +716,9 @@ fn mutate_value(v: &Value, m: &Mutation) -> Option<Value> {
             Mutation::RedeclareNode(i) => {
                 let a = top.get_mut(0)?.as_array_mut()?;
                 let mut x = a.get(*i)?.clone();
-                *x.get_mut(1)? = serde_json::json!([77, 7777]);
+                if alt.is_none() {
+                    *x.get_mut(1)? = serde_json::json!([77, 7777]);
+                }
                 a.push(x);
             }
             Mutation::DropEdge(i) => {
@@ -729,12 +736,15 @@ fn mutate_value(v: &Value, m: &Mutation) -> Option<Value> {
             Mutation::Retarget { edge, end, key } => {
                 let a = top.get_mut(1)?.as_array_mut()?;
                 let x = a.get_mut(*edge)?;
-                *x.get_mut(*end)? = serde_json::json!(key);
+                *x.get_mut(*end)? = match alt {
+                    None => serde_json::json!(key),
+                    Some(style) => serde_json::json!(crate::flavour::alt_key(style, *key)),
+                };
             }
             Mutation::RetypeNodeKey(i) => {
                 let a = top.get_mut(0)?.as_array_mut()?;
                 let x = a.get_mut(*i)?;
-                *x.get_mut(0)? = serde_json::json!("zero");
+                *x.get_mut(0)? = if alt.is_none() { serde_json::json!("zero") } else { serde_json::json!(5) };
             }
             Mutation::RetypeEdgeValue(i) => {
                 let a = top.get_mut(1)?.as_array_mut()?;
@@ -872,6 +882,76 @@ fn ut_one<F: Flavour>(sc: &UtSc, m: &Mutation, stats: &mut Stats) -> Option<Viol
             format!("document mutated by {m:?} produced a graph that cannot be read back: {msg}"),
         )),
     }
+}
+
+fn alt_base_value(n: usize, edges: &[(usize, usize, u64)], style: u8) -> Value {
+    let key = |k: usize| crate::flavour::alt_key(style, k);
+    let nodes: Vec<Value> = (0..n).map(|k| serde_json::json!([key(k), null])).collect();
+    let es: Vec<Value> = edges.iter().map(|(u, v, _)| serde_json::json!([key(*u), key(*v), null])).collect();
+    serde_json::json!([nodes, es])
+}
+
+type AltDoc = (Vec<(String, ())>, Vec<(String, String, ())>);
+
+/// The same mutation applied to the same graph written with `String` keys and `()` values:
+/// key text reaches the library's error paths, and unit payloads make parallel edges equal.
+fn ut_one_alt<F: Flavour>(sc: &UtSc, m: &Mutation, stats: &mut Stats) -> Option<Violation> {
+    let style = (sc.hash_seed % 4) as u8;
+    let base = alt_base_value(sc.prios.len(), &sc.edges, style);
+    let bytes = match m {
+        Mutation::None => encode(&base, sc.wire),
+        Mutation::Truncate(_) | Mutation::BitFlip { .. } | Mutation::ByteDrop(_) | Mutation::ByteDup(_) | Mutation::ByteSet { .. } => {
+            mutate_bytes(&encode(&base, sc.wire), m)?
+        }
+        _ => encode(&mutate_value_keyed(&base, m, Some(style))?, sc.wire),
+    };
+    stats.inc("documents_with_string_keys");
+    stats.mark("mutated_documents", crate::rng::fnv(&bytes) ^ crate::rng::fnv(sc.flavour.as_bytes()) ^ 0x5a5a);
+    let declared: Option<AltDoc> = match caught(|| if sc.wire.is_cbor() { serde_cbor::from_slice::<AltDoc>(&bytes).ok() } else { serde_json::from_slice::<AltDoc>(&bytes).ok() }) {
+        Caught::Ok(d) => d,
+        _ => return None,
+    };
+    hashseam::set_seed(sc.hash_seed);
+    let got = match caught(|| F::alt_de(&bytes, sc.wire)) {
+        Caught::Panic(msg) => {
+            return Some(Violation::new(
+                "panic",
+                format!("deserialising a {:?} document with String keys mutated by {m:?} panicked: {msg}", sc.wire),
+            ))
+        }
+        Caught::Abort(msg) => return Some(Violation::new("hang", format!("deserialising a document with String keys mutated by {m:?} cannot return: {msg}"))),
+        Caught::Ok(Err(_)) => {
+            stats.inc("outcome_err_string_keys");
+            return None;
+        }
+        Caught::Ok(Ok(g)) => g,
+    };
+    stats.inc("outcome_ok_graph_string_keys");
+    let Some((dn, de)) = declared else { return None };
+    if let Some((u, v, _)) = de.iter().find(|(u, v, _)| !dn.iter().any(|x| x.0 == *u) || !dn.iter().any(|x| x.0 == *v)) {
+        return Some(Violation::new(
+            "undeclared-key-accepted",
+            format!("the document with String keys (mutation {m:?}) lists edge ({u:?},{v:?}) naming an undeclared key, yet deserialisation returned a graph"),
+        ));
+    }
+    for (k, out) in &got {
+        if !dn.iter().any(|x| x.0 == *k) {
+            return Some(Violation::new("invented-content", format!("node {k:?} is not declared by the document with String keys mutated by {m:?}")));
+        }
+        for v in out {
+            // every edge of the graph is listed (either orientation for the undirected flavours)
+            let listed = de.iter().filter(|e| (e.0 == *k && e.1 == *v) || (!F::DIRECTED && e.0 == *v && e.1 == *k)).count();
+            let have = out.iter().filter(|x| *x == v).count();
+            let have = if !F::DIRECTED && k == v { (have + 1) / 2 } else { have };
+            if have > listed {
+                return Some(Violation::new(
+                    "invented-content",
+                    format!("edge ({k:?},{v:?}) occurs {have}x at node {k:?} but {listed}x in the document with String keys (mutation {m:?})"),
+                ));
+            }
+        }
+    }
+    None
 }
 
 fn ut_check_graph<F: Flavour>(sc: &UtSc, m: &Mutation, g: &F::Graph, declared: Option<Declared>, stats: &mut Stats) -> Option<Violation> {
@@ -1012,6 +1092,12 @@ fn ut_run<F: Flavour>(sc: &UtSc, stats: &mut Stats) -> Option<(Violation, Mutati
         if let Some(v) = ut_one::<F>(sc, m, stats) {
             out = Some((v, m.clone()));
             break;
+        }
+        if sc.rplan.is_none() {
+            if let Some(v) = ut_one_alt::<F>(sc, m, stats) {
+                out = Some((v, m.clone()));
+                break;
+            }
         }
     }
     if F::SYNC {
